@@ -282,6 +282,22 @@ def sibling_edit(rec, rng, case) -> None:
     before = harness.obs(out.chart)["tracks"]
     I, D = harness.Instrument, harness.Difficulty
     victim = out.chart.instrument_tracks[I[i0]][D[d0]]
+    # the pasted-under sections alone / the donor alone: each selected track is the track of the unrestricted parse, as a value too (==)
+    for pick in ([(i0, d0)], [hdr[h] for h in extra[:1]]):
+        o1 = harness.parse(text, harness.pairs(pick))
+        rec.ev()
+        if o1.ok:
+            pi, pd = pick[0]
+            a = o1.chart.instrument_tracks.get(I[pi], {}).get(D[pd])
+            b = out.chart.instrument_tracks.get(I[pi], {}).get(D[pd])
+            try:
+                same = a is not None and b is not None and bool(a == b) and bool(b == a)
+            except Exception:  # noqa
+                same = False
+            if not same:
+                rec.violation("interference", f"[{donor}] also stands under {extra}: track {pi}/{pd} parsed alone (selection) does not compare equal (==) to the same track "
+                              "of the unrestricted parse", {"text": text, "sibling_edit": True}, "selected-track-differs-when-siblings-have-identical-bodies")
+                return
     done = False
     for x in (victim.note_events, victim.star_power_events, victim.track_events):
         try:
